@@ -39,6 +39,7 @@ impl EdgeId {
 }
 pub type Entry = (NodeId, EdgeId);
 //@struct GraphStore keep=outgoing,incoming,frozen_outgoing,frozen_incoming,edge_endpoints,edge_type_ids,free_edge_ids,next_edge_id,edge_type_index,current_version
+//@item type TxnId
 //@enum GraphError
 //@item type GraphResult
 
@@ -148,10 +149,38 @@ impl GraphStore {
     /// catalog bookkeeping (triple statistics) is outside the projected state
     #[verifier::external_body]
     pub fn note_edge_created(&self, source: NodeId, edge_type: &EdgeType, target: NodeId) { unimplemented!() }
+    /// get_edge (unit store_mvcc): what the store answers for an edge id at the current version -- a function of the store;
+    /// a live edge with its stored endpoints (assumed here)
+    pub uninterp spec fn edge_view(&self, id: EdgeId) -> Option<Edge>;
     #[verifier::external_body]
     pub fn get_edge(&self, id: EdgeId) -> (r: Option<Edge>)
-        ensures r matches Some(e) ==> e.id == id && self.live(id) && self.edge_endpoints@[id.0 as int] == (e.source, e.target)
+        ensures r == self.edge_view(id), r matches Some(e) ==> e.id == id && self.live(id) && self.edge_endpoints@[id.0 as int] == (e.source, e.target)
     { unimplemented!() }
+    /// the edges a list of adjacency entries resolves to, in order (entries whose edge the store does not answer for are skipped)
+    pub open spec fn resolve(&self, es: Seq<Entry>) -> Seq<Edge>
+        decreases es.len()
+    {
+        if es.len() == 0 { Seq::empty() } else {
+            match self.edge_view(es.last().1) { Some(e) => self.resolve(es.drop_last()).push(e), None => self.resolve(es.drop_last()) }
+        }
+    }
+    pub proof fn lemma_resolve_concat(&self, a: Seq<Entry>, b: Seq<Entry>)
+        ensures self.resolve(a + b) == self.resolve(a) + self.resolve(b)
+        decreases b.len()
+    {
+        if b.len() == 0 {
+            assert(a + b =~= a);
+            assert(self.resolve(a) + Seq::<Edge>::empty() =~= self.resolve(a));
+        } else {
+            assert((a + b).drop_last() =~= a + b.drop_last());
+            assert((a + b).last() == b.last());
+            self.lemma_resolve_concat(a, b.drop_last());
+            match self.edge_view(b.last().1) {
+                Some(e) => { assert((self.resolve(a) + self.resolve(b.drop_last())).push(e) =~= self.resolve(a) + self.resolve(b.drop_last()).push(e)); },
+                None => {},
+            }
+        }
+    }
 //@item const EDGE_TYPE_UNSET
 
     /// what creating edge e from source to target does to the two-tier adjacency and the endpoint table
@@ -209,6 +238,87 @@ impl GraphStore {
         }
     }
 
+    /// inserting into a sequence adds exactly that element to its multiset
+    pub proof fn lemma_insert_multiset(s: Seq<Entry>, pos: int, x: Entry)
+        requires 0 <= pos <= s.len()
+        ensures s.insert(pos, x).to_multiset() == s.to_multiset().insert(x)
+    {
+        broadcast use vstd::seq_lib::group_to_multiset_ensures;
+        let a = s.take(pos); let b = s.skip(pos);
+        assert(s.insert(pos, x) =~= a.push(x) + b);
+        assert(s =~= a + b);
+        vstd::seq_lib::lemma_multiset_commutative(a.push(x), b);
+        vstd::seq_lib::lemma_multiset_commutative(a, b);
+        assert(a.push(x).to_multiset() =~= a.to_multiset().insert(x));
+        assert(s.insert(pos, x).to_multiset() =~= s.to_multiset().insert(x));
+    }
+    /// a sorted list stays sorted when an entry is inserted where search_by_nbr says
+    pub proof fn lemma_insert_keeps_sorted(s: Seq<Entry>, pos: int, x: Entry)
+        requires
+            0 <= pos <= s.len(), sorted_by_nbr(s),
+            (pos < s.len() && s[pos].0 == x.0) || ((forall|i: int| 0 <= i < pos ==> (#[trigger] s[i]).0.0 < x.0.0) && (forall|i: int| pos <= i < s.len() ==> (#[trigger] s[i]).0.0 > x.0.0)),
+        ensures sorted_by_nbr(s.insert(pos, x))
+    {
+        let t = s.insert(pos, x);
+        assert forall|i: int, j: int| 0 <= i <= j < t.len() implies t[i].0.0 <= t[j].0.0 by {
+            let oi = if i < pos { i } else { i - 1 };
+            let oj = if j < pos { j } else { j - 1 };
+            if i != pos && j != pos { assert(t[i] == s[oi] && t[j] == s[oj]); }
+            else if i == pos && j != pos { assert(t[j] == s[oj]); if pos < s.len() && s[pos].0 == x.0 { assert(s[pos].0.0 <= s[oj].0.0); } }
+            else if j == pos && i != pos { assert(t[i] == s[oi]); if pos < s.len() && s[pos].0 == x.0 { assert(s[oi].0.0 <= s[pos].0.0); } }
+        }
+    }
+    /// the bookkeeping common to both ways of creating an edge: given what the body did to the buffers, the endpoint table
+    /// and the id supply, the store gained exactly this edge and the invariants hold
+    pub proof fn lemma_edge_created(&self, o: &GraphStore, source: NodeId, target: NodeId, e: EdgeId, popped: bool)
+        requires
+            o.no_dangling(), o.ids_fresh(), o.next_edge_id < u64::MAX, o.slot_ok(source), o.slot_ok(target),
+            popped ==> o.free_edge_ids@.len() > 0 && e.0 == o.free_edge_ids@.last() && self.free_edge_ids@ == o.free_edge_ids@.drop_last() && self.next_edge_id == o.next_edge_id,
+            !popped ==> e.0 == o.next_edge_id && self.free_edge_ids@ == o.free_edge_ids@ && self.next_edge_id == o.next_edge_id + 1,
+            self.frozen_outgoing == o.frozen_outgoing && self.frozen_incoming == o.frozen_incoming,
+            self.outgoing@.len() == o.outgoing@.len() && self.incoming@.len() == o.incoming@.len(),
+            forall|i: int| 0 <= i < o.outgoing@.len() && i != source.0 ==> (#[trigger] self.outgoing@[i])@ == o.outgoing@[i]@,
+            forall|i: int| 0 <= i < o.incoming@.len() && i != target.0 ==> (#[trigger] self.incoming@[i])@ == o.incoming@[i]@,
+            self.outgoing@[source.0 as int]@.to_multiset() == o.outgoing@[source.0 as int]@.to_multiset().insert((target, e)),
+            self.incoming@[target.0 as int]@.to_multiset() == o.incoming@[target.0 as int]@.to_multiset().insert((source, e)),
+            self.edge_endpoints@.len() > e.0 && self.edge_endpoints@.len() >= o.edge_endpoints@.len(),
+            self.edge_endpoints@[e.0 as int] == (source, target),
+            forall|k: int| 0 <= k < o.edge_endpoints@.len() && k != e.0 ==> (#[trigger] self.edge_endpoints@[k]) == o.edge_endpoints@[k],
+            forall|k: int| o.edge_endpoints@.len() <= k < self.edge_endpoints@.len() && k != e.0 ==> (#[trigger] self.edge_endpoints@[k]) == (NodeId(0), NodeId(0)),
+        ensures self.edge_added(o, source, target, e), self.no_dangling(), self.ids_fresh()
+    {
+        assert(!o.live(e));
+        assert forall|x: EdgeId| x != e implies (#[trigger] self.live(x) == o.live(x)) && (o.live(x) ==> self.edge_endpoints@[x.0 as int] == o.edge_endpoints@[x.0 as int]) by {
+            if (x.0 as int) < o.edge_endpoints@.len() { assert(self.edge_endpoints@[x.0 as int] == o.edge_endpoints@[x.0 as int]); }
+            else if (x.0 as int) < self.edge_endpoints@.len() { assert(self.edge_endpoints@[x.0 as int] == (NodeId(0), NodeId(0))); }
+        }
+        assert forall|i: int| #[trigger] self.out_all(i) == if i == source.0 { o.out_all(i).insert((target, e)) } else { o.out_all(i) } by {
+            if 0 <= i < o.outgoing@.len() {
+                if i == source.0 {
+                    assert(self.out_all(i) =~= o.out_all(i).insert((target, e)));
+                } else { assert(buf(self.outgoing@, i) == buf(o.outgoing@, i)); }
+            } else { assert(buf(self.outgoing@, i) =~= buf(o.outgoing@, i)); }
+        }
+        assert forall|i: int| #[trigger] self.in_all(i) == if i == target.0 { o.in_all(i).insert((source, e)) } else { o.in_all(i) } by {
+            if 0 <= i < o.incoming@.len() {
+                if i == target.0 {
+                    assert(self.in_all(i) =~= o.in_all(i).insert((source, e)));
+                } else { assert(buf(self.incoming@, i) == buf(o.incoming@, i)); }
+            } else { assert(buf(self.incoming@, i) =~= buf(o.incoming@, i)); }
+        }
+        assert(self.edge_added(o, source, target, e));
+        self.lemma_added_keeps_no_dangling(o, source, target, e);
+        assert forall|k: int| 0 <= k < self.free_edge_ids@.len() implies !self.live(EdgeId(#[trigger] self.free_edge_ids@[k])) && self.free_edge_ids@[k] < self.next_edge_id by {
+            assert(self.free_edge_ids@[k] == o.free_edge_ids@[k]);
+            assert(EdgeId(o.free_edge_ids@[k]) != e);
+            assert(self.live(EdgeId(o.free_edge_ids@[k])) == o.live(EdgeId(o.free_edge_ids@[k])));
+        }
+        assert forall|x: u64| x >= self.next_edge_id implies !#[trigger] self.live(EdgeId(x)) by {
+            assert(EdgeId(x) != e);
+            assert(self.live(EdgeId(x)) == o.live(EdgeId(x)));
+        }
+    }
+
 //@fn GraphStore::get_edge_endpoints ret=r
 //@ensures
         r is Some <==> self.live(edge_id),      //#some_iff_live
@@ -218,6 +328,90 @@ impl GraphStore {
 //@fn GraphStore::has_edge ret=r
 //@ensures
         r == self.live(id),      //#exists_iff_live
+//@end
+
+//@fn GraphStore::get_outgoing_edges ret=r
+//@ensures
+        r@ == self.resolve(self.frozen_outgoing.nbrs(node_id.0 as int) + buf(self.outgoing@, node_id.0 as int)),      //#frozen_then_buffered_entries_resolved_in_order
+//@loop 1 hoist=fro iter=it
+            invariant
+                fro@ == self.frozen_outgoing.nbrs(node_id.0 as int),
+                result@ == self.resolve(fro@.take(it.index() as int)),      //#resolved_the_frozen_entries_so_far
+//@loop 2 iter=it2
+                invariant
+                    entries@ == buf(self.outgoing@, node_id.0 as int), fro@ == self.frozen_outgoing.nbrs(node_id.0 as int),
+                    result@ == self.resolve(fro@) + self.resolve(entries@.take(it2.index() as int)),      //#then_the_buffered_entries_so_far
+//@before "if let Some(entries) = self.outgoing.get(idx)"
+        proof {
+            assert(fro@.take(fro@.len() as int) =~= fro@);
+            assert(self.resolve(fro@) + Seq::<Edge>::empty() =~= self.resolve(fro@));
+            assert(self.resolve(Seq::<Entry>::empty()) =~= Seq::<Edge>::empty());
+        }
+//@before "if let Some(e) = self.get_edge(eid) { result.push(e); }" 1
+            proof {
+                let i = it.index() as int;
+                assert(fro@.take(i + 1).drop_last() =~= fro@.take(i));
+                assert(fro@.take(i + 1).last() == fro@[i]);
+            }
+//@before "if let Some(e) = self.get_edge(eid) { result.push(e); }" 2
+                proof {
+                    let i = it2.index() as int;
+                    assert(entries@.take(i + 1).drop_last() =~= entries@.take(i));
+                    assert(entries@.take(i + 1).last() == entries@[i]);
+                    match self.edge_view(entries@[i].1) {
+                        Some(e0) => { assert((self.resolve(fro@) + self.resolve(entries@.take(i))).push(e0) =~= self.resolve(fro@) + self.resolve(entries@.take(i)).push(e0)); },
+                        None => {},
+                    }
+                }
+//@afterloop 2
+            proof { assert(entries@.take(entries@.len() as int) =~= entries@); }
+//@tail out
+        proof {
+            self.lemma_resolve_concat(fro@, buf(self.outgoing@, node_id.0 as int));
+            assert(self.resolve(fro@) + Seq::<Edge>::empty() =~= self.resolve(fro@));
+        }
+//@end
+
+//@fn GraphStore::get_incoming_edges ret=r
+//@ensures
+        r@ == self.resolve(self.frozen_incoming.nbrs(node_id.0 as int) + buf(self.incoming@, node_id.0 as int)),      //#frozen_then_buffered_entries_resolved_in_order
+//@loop 1 hoist=fro iter=it
+            invariant
+                fro@ == self.frozen_incoming.nbrs(node_id.0 as int),
+                result@ == self.resolve(fro@.take(it.index() as int)),      //#resolved_the_frozen_entries_so_far
+//@loop 2 iter=it2
+                invariant
+                    entries@ == buf(self.incoming@, node_id.0 as int), fro@ == self.frozen_incoming.nbrs(node_id.0 as int),
+                    result@ == self.resolve(fro@) + self.resolve(entries@.take(it2.index() as int)),      //#then_the_buffered_entries_so_far
+//@before "if let Some(entries) = self.incoming.get(idx)"
+        proof {
+            assert(fro@.take(fro@.len() as int) =~= fro@);
+            assert(self.resolve(fro@) + Seq::<Edge>::empty() =~= self.resolve(fro@));
+            assert(self.resolve(Seq::<Entry>::empty()) =~= Seq::<Edge>::empty());
+        }
+//@before "if let Some(e) = self.get_edge(eid) { result.push(e); }" 1
+            proof {
+                let i = it.index() as int;
+                assert(fro@.take(i + 1).drop_last() =~= fro@.take(i));
+                assert(fro@.take(i + 1).last() == fro@[i]);
+            }
+//@before "if let Some(e) = self.get_edge(eid) { result.push(e); }" 2
+                proof {
+                    let i = it2.index() as int;
+                    assert(entries@.take(i + 1).drop_last() =~= entries@.take(i));
+                    assert(entries@.take(i + 1).last() == entries@[i]);
+                    match self.edge_view(entries@[i].1) {
+                        Some(e0) => { assert((self.resolve(fro@) + self.resolve(entries@.take(i))).push(e0) =~= self.resolve(fro@) + self.resolve(entries@.take(i)).push(e0)); },
+                        None => {},
+                    }
+                }
+//@afterloop 2
+            proof { assert(entries@.take(entries@.len() as int) =~= entries@); }
+//@tail out
+        proof {
+            self.lemma_resolve_concat(fro@, buf(self.incoming@, node_id.0 as int));
+            assert(self.resolve(fro@) + Seq::<Edge>::empty() =~= self.resolve(fro@));
+        }
 //@end
 
 //@fn GraphStore::create_edge_stub ret=r
@@ -232,6 +426,12 @@ impl GraphStore {
         final(self).no_dangling() && final(self).ids_fresh(),      //#invariants_kept
 //@atstart
         proof { axiom_pair_clone(); axiom_vec_len(&self.edge_endpoints); }
+        let ghost popped = old(self).free_edge_ids@.len() > 0;
+//@before "Ok(edge_id)"
+        proof {
+            broadcast use vstd::seq_lib::group_to_multiset_ensures;
+            self.lemma_edge_created(&*old(self), source, target, edge_id, popped);
+        }
 //@end
 
 //@fn GraphStore::create_edge ret=r
@@ -253,6 +453,21 @@ impl GraphStore {
 //@closure unwrap_or_else#2 (p: usize) -> (o: usize) ensures o == p
 //@atstart
         proof { axiom_pair_clone(); axiom_key_models(); axiom_vec_len(&self.edge_endpoints); }
+        let ghost popped = old(self).free_edge_ids@.len() > 0;
+//@before "out_list.insert(pos, (target, edge_id));"
+            proof {
+                Self::lemma_insert_multiset(out_list@, pos as int, (target, edge_id));
+                if sorted_by_nbr(out_list@) { Self::lemma_insert_keeps_sorted(out_list@, pos as int, (target, edge_id)); }
+            }
+//@before "in_list.insert(pos, (source, edge_id));"
+            proof {
+                Self::lemma_insert_multiset(in_list@, pos as int, (source, edge_id));
+                if sorted_by_nbr(in_list@) { Self::lemma_insert_keeps_sorted(in_list@, pos as int, (source, edge_id)); }
+            }
+//@before "Ok(edge_id)"
+        proof {
+            self.lemma_edge_created(&*old(self), source, target, edge_id, popped);
+        }
 //@end
 }
 
